@@ -136,9 +136,35 @@ def check_apply_case(sel):
     case = {"kind": "apply", "sel": sel}
     out = []
     expect = ref_apply_accepts(sel, req, set(ids))
+    stats = {"accepted": 0, "rejected": 0}
+    # the ways of handing the list to the function (the deprecated keyword
+    # and the deprecated class are still supported)
+    ways = {
+        "preproc.apply": lambda i: preproc.apply(i, list(sel), options={}),
+        "preproc.apply:identifiers=": lambda i: preproc.apply(
+            i, identifiers=list(sel), options={}),
+        "preproc.apply:preproc_names=": lambda i: preproc.apply(
+            i, preproc_names=list(sel), options={}),
+        "IndentationPreprocessor.apply": lambda i:
+            preproc.IndentationPreprocessor.apply(i, list(sel), options={}),
+        "IndentationPreprocessor.apply:preproc_names=": lambda i:
+            preproc.IndentationPreprocessor.apply(
+                i, preproc_names=list(sel), options={}),
+    }
+    for site, call in ways.items():
+        out += _check_apply_way(site, call, sel, expect, ids, req, case)
+        stats["accepted" if expect else "rejected"] += 1
+    return out, stats
+
+
+def _check_apply_way(site, call, sel, expect, ids, req, case):
+    import warnings
+    out = []
     idnt = _fresh()
     try:
-        preproc.apply(idnt, list(sel), options={})
+        with warnings.catch_warnings():
+            warnings.simplefilter("ignore", DeprecationWarning)
+            call(idnt)
         got, err = True, None
     except (ValueError, KeyError) as e:
         got, err = False, e
@@ -147,17 +173,17 @@ def check_apply_case(sel):
         got, err = None, e
     unknown = [s for s in sel if s not in ids]
     if got is None:
-        out.append(V(PROP, "apply-crashes", site="preproc.apply",
+        out.append(V(PROP, "apply-crashes", site=site,
                      witness=",".join(sel), detail=repr(err), case=case,
                      kind="apply"))
     elif got and not expect:
         clause = "unknown-accepted" if unknown else "apply-accepts-bad"
-        out.append(V(PROP, clause, site="preproc.apply",
+        out.append(V(PROP, clause, site=site,
                      witness=",".join(sel),
                      detail="accepted although the reference rejects",
                      case=case, kind="apply"))
     elif (not got) and expect:
-        out.append(V(PROP, "apply-rejects-good", site="preproc.apply",
+        out.append(V(PROP, "apply-rejects-good", site=site,
                      witness=",".join(sel), detail=repr(err), case=case,
                      kind="apply"))
     elif (not got) and unknown and not isinstance(err, KeyError):
@@ -169,10 +195,10 @@ def check_apply_case(sel):
                 first_bad = s
                 break
         if first_bad in unknown:
-            out.append(V(PROP, "unknown-wrong-error", site="preproc.apply",
+            out.append(V(PROP, "unknown-wrong-error", site=site,
                          witness=",".join(sel), detail=repr(err), case=case,
                          kind="apply"))
-    return out, {"accepted": int(bool(got)), "rejected": int(got is False)}
+    return out
 
 
 def check_unknown_case(sel):
